@@ -62,6 +62,8 @@ def check(repo, col, tier):
     init_order(repo, col, "R-C13-initorder")
     col.rule("R-C13-uniform", "the branch is tested for uniformity by comparing values, never through floating-point statistics", 4)
     uniformity_guards(repo, col, fi, ex, "R-C13-uniform")
+    col.rule("R-C13-dtypes", "the averaged rows get back the column types of the whole table", 2)
+    restored_dtypes(repo, col, fi, ex, "R-C13-dtypes")
     col.rule("R-C13-iter", "branches are handed out one at a time, so set_ncomp inside a loop over branches sees current rows", 2)
     from . import c11
     c11.lazy_iteration(repo, col, "R-C13-iter")
@@ -540,3 +542,42 @@ def init_order(repo, col, R):
                       f"describes the rows before the change (old number of compartments), so the structure built from it is that of the old module", node=bad[0] if bad else fi.node)
     if n_ < 6:
         raise AnalysisError(f"only {n_} initialisation methods found")
+
+
+def restored_dtypes(repo, col, fi, ex, R):
+    """The new rows are an AVERAGE of the old ones, which turns every column into floats; they are spliced into the table of the whole
+    module (`self.base.nodes`), so the columns that are cast back -- the indices to int, the has-channel flags to bool -- are the
+    columns of the whole module: the flag columns of ALL channels of the base, also of those that live in other branches (their flags
+    are 0.0 -> False here).  With the view's own channel list a flag column of the base becomes an object column holding False and
+    0.0, and `nodes.loc[nodes[channel]]` -- how channel currents and updates find their rows -- turns from a mask into a label lookup."""
+    casts = [s_ for s_ in ex.stores if s_.kind == "sub" and s_.value is not None and
+             T.find(s_.value, lambda x: x.op == "mcall" and x.name == "astype" and len(x.args) > 1 and
+                    ((x.args[1].op in ("free", "name", "glob") and str(x.args[1].name) in ("bool", "int")) or
+                     (x.args[1].op == "const" and x.args[1].name in ("bool", "int")))) is not None]
+    got = {}
+    for s_ in casts:
+        a = T.find(s_.value, lambda x: x.op == "mcall" and x.name == "astype" and len(x.args) > 1)
+        ty = str(a.args[1].name)
+        got.setdefault(ty, []).append(s_)
+    if "bool" not in got:
+        col.unk(R, fi, "the has-channel flags of the new rows are cast back to bool", f"casts found: {sorted(got)}", node=fi.node)
+        return
+    for s_ in got["bool"]:
+        k = idx.inline(repo, fi, s_.key)
+        regs = [x for x in k.walk() if x.op == "attr" and x.name == "channels"]
+        if not regs:
+            col.unk(R, fi, "the has-channel flags of the new rows are cast back to bool", f"columns {k.short(80)}", node=s_.node)
+            continue
+        own = [x for x in regs if x.args and x.args[0].op == "param" and x.args[0].name == "self"]
+        names = T.find(k, lambda x: x.op == "attr" and x.name == "_name") is not None
+        col.check(not own and names, R, fi, "the has-channel flags of ALL channels of the module are cast back to bool in the new rows",
+                  "[c._name for c in self.base.channels]",
+                  f"the columns cast back are {k.short(90)}: " + ("the view's own channels -- the flag of a channel that lives in another branch stays 0.0 in the new "
+                  "rows, its column in the module's table becomes an object column, and `nodes.loc[nodes[channel]]` looks rows up by label instead of "
+                  "masking them" if own else "not the channels' names"), node=s_.node)
+    if "int" in got:
+        k = got["int"][0].key
+        cols_ = {x.name for x in k.walk() if x.op == "const" and isinstance(x.name, str)}
+        want = {"global_cell_index", "global_branch_index", "global_comp_index"}
+        col.check(want <= cols_, R, fi, "the global index columns of the new rows are cast back to int", "the three global_*_index columns",
+                  f"only {sorted(cols_)} are cast back to int", node=got["int"][0].node)
